@@ -48,6 +48,21 @@ def cases(rng, tier):
             out.append({"a": a, "dtype": dt, "near": True})
     for _ in range(300 if tier == "quick" else 3000):
         out.append({"a": rlgen.array_random(rng, 60), "dtype": rng.choice(gens.DTYPES), "near": rng.random() < 0.3})
+    # LONG arrays made of a few long runs, with lengths around 2**8 and 2**16 and runs that cross / end at those positions
+    # (block-wise or narrow-integer encoders show there); too long for the Lean driver: implementation vs oracle only
+    for L in ([255, 256, 257, 65535, 65536, 65537, 70000, 131072, 131073] if tier == "quick" else
+              [255, 256, 257, 511, 65535, 65536, 65537, 70000, 131071, 131072, 131073, 196609, 262145]):
+        for _ in range(2 if tier == "quick" else 4):
+            cuts = sorted({c for c in (rng.choice([1, 2, 250, 255, 256, 65530, 65535, 65536, 65537, 65600, 131072, L - 1, rng.randint(1, L)])
+                                        for _ in range(rng.randint(0, 4))) if 0 < c < L})
+            runs, prev, cls = [], 0, rng.randrange(3)
+            for c in cuts + [L]:
+                runs.append([cls, c - prev]); prev = c
+                cls = (cls + rng.choice([1, 2])) % 3
+            a = [c for c, n in runs for _ in range(n)]
+            out.append({"a": a, "dtype": rng.choice(["int8", "int64", "uint16", "float64", "bool", "int16"]), "long": True})
+            if rng.random() < 0.5:
+                out.append({"a": a, "dtype": "int64", "long": True, "derived": {"t": "slice", "s": [None, None, rng.choice([2, -2, 3, 257, -1])]}})
     # +0.0 next to -0.0: equal values (one run), different bit patterns
     for a in rlgen.arrays_exhaustive(4):
         out.append({"a": a, "dtype": rng.choice(["float32", "float64"]), "zeros": True})
@@ -80,6 +95,8 @@ def cases(rng, tier):
 
 
 def key(p):
+    if p.get("long"):
+        return engine.stable_hash(p)
     return (tuple(p["a"]), p["dtype"], bool(p.get("near")), bool(p.get("zeros")), engine.stable_hash(p.get("derived")))
 
 
@@ -228,7 +245,7 @@ def _nan_class(p):
 def lean_request(p):
     if p.get("zeros"):
         return None         # +0.0 / -0.0 are equal but not identical: outside the hypothesis of C14_decode_encode (its counterexample)
-    if "derived" in p:
+    if "derived" in p or p.get("long"):
         return None         # the theorems about derived arrays are C15_slice / C16_binary_canonical / C16_concat
     return {"op": "RL.encode", "a": rlgen.lean_classes(p["a"], p["dtype"], _mode(p)), "nan": _nan_class(p)}
 
